@@ -72,7 +72,7 @@ Definition purge_state2 (layout : list (nat * nat)) : state :=
   let s1 := run [LEmitNoAck 0; LConnect] (purge_state1 layout) in
   fold_left (fun s x =>
      let k := length (st_replies s) in
-     run (answer_sched s (fst x) (snd x) ++ [LReply k true; LReply k true; LReply k true]) s)
+     run (answer_sched s (fst x) (snd x) ++ [LReply k true; LReply k true; LReply k true; LReply k true]) s)
     (ids_of_kind layout 1) s1.
 
 Definition per_packet_outcomes (s : state) (layout : list (nat * nat)) : list (list outcome) :=
@@ -125,6 +125,8 @@ Record lcase := mkLcase {
   lc_class : nat;            (* 0: far from the boundary, reply side; 1: far, timer side (or no reply
                                 can come); 2: near the boundary: either *)
   lc_obs : list outcome;     (* invocations of the callback *)
+  lc_hold : bool;            (* the callback blocks (first invocation) until everything else - the timer
+                                waking up, late or duplicated ACK packets - has happened *)
   lc_pending : bool;         (* the id still has a table entry at the end *)
   lc_usable : bool           (* a later emit/ack round trip on the same socket worked *)
 }.
@@ -134,30 +136,41 @@ Definition lcfg (c : lcase) := if lc_client c then cfg_client else cfg_server.
 Definition l_prefix (c : lcase) : list label :=
   [LEmit (lc_timeout c) (lc_natt c)] ++ (if lc_timeout c then [LEmitStep 0; LEmitStep 0] else [LEmitStep 0]).
 
+(** an onAck goroutine: lookup, call, start of the callback [, return of the callback] *)
+Definition reply_steps (c : lcase) (k : nat) : list label :=
+  [LReply k true; LReply k true; LReply k true] ++ (if lc_hold c then [] else [LReply k true]).
+
 Definition l_replies (c : lcase) (first : args) : list label :=
   (if lc_compliant c
    then map (LPeerAck 0) (lc_early c) ++ [LDeliver 0]
    else LPacketIn 0 first :: map (LPacketIn 0) (lc_early c))
-  ++ flat_map (fun k => [LReply k true; LReply k true; LReply k true]) (seq 0 (S (length (lc_early c)))).
+  ++ flat_map (reply_steps c) (seq 0 (S (length (lc_early c)))).
 
 Definition l_late (c : lcase) : list label :=
   map (LPacketIn 0) (lc_late c)
-  ++ flat_map (fun k => [LReply k true; LReply k true; LReply k true])
-       (seq 0 (S (length (lc_early c)) + length (lc_late c))).
+  ++ flat_map (reply_steps c) (seq 0 (S (length (lc_early c)) + length (lc_late c))).
+
+(** held callbacks return at the very end *)
+Definition l_ends (c : lcase) : list label :=
+  LTimer 0 :: map (fun k => LReply k true) (seq 0 (S (length (lc_early c)) + length (lc_late c))).
+
+(** the timer goroutine up to (hold) or through the timeout callback *)
+Definition l_timer (c : lcase) : list label :=
+  if lc_hold c then repeat (LTimer 0) (if lc_client c then 6 else 3) else timer_sched 0.
 
 (** reply first, then the timer wakes up *)
 Definition l_sched_reply (c : lcase) (first : args) : list label :=
-  l_prefix c ++ [LConnect] ++ l_replies c first ++ timer_sched 0 ++ l_late c.
+  l_prefix c ++ [LConnect] ++ l_replies c first ++ l_timer c ++ l_late c ++ l_ends c.
 
 (** timer first, the replies (if any) arrive afterwards *)
 Definition l_sched_timer (c : lcase) : list label :=
   l_prefix c ++ (if Nat.eqb (lc_conn c) 2 then [LDisconnect] else [])
-  ++ timer_sched 0 ++ [LConnect]
-  ++ (match lc_early c with a :: _ => l_replies c a | [] => [] end) ++ l_late c.
+  ++ l_timer c ++ [LConnect]
+  ++ (match lc_early c with a :: _ => l_replies c a | [] => [] end) ++ l_late c ++ l_ends c.
 
 (** the reply is lost (connection cut, peer never answers): only the timer, if any, acts *)
 Definition l_sched_lost (c : lcase) : list label :=
-  l_prefix c ++ (if Nat.eqb (lc_conn c) 2 then [LDisconnect] else []) ++ timer_sched 0 ++ [LConnect].
+  l_prefix c ++ (if Nat.eqb (lc_conn c) 2 then [LDisconnect] else []) ++ l_timer c ++ [LConnect] ++ l_ends c.
 
 Definition l_init (c : lcase) : state := init_state (lcfg c) (negb (Nat.eqb (lc_conn c) 1)).
 
